@@ -10,7 +10,7 @@
    minus, an integer part without leading zero, a fraction and/or an exponent with explicit sign) and
    for nan / inf / -inf; what remains assumed is that repr(x) has that shape and float(repr x) = x.  That json.dumps / json.loads ARE lib/Json.v's print / loads is
    tied by the byte-exact correspondence in both directions. *)
-From AV Require Import Base Utf8 Json Gen_jsonrpc Codec CodecProofs JsonRoundTrip CodecText.
+From AV Require Import Base Utf8 Json Gen_jsonrpc Codec CodecProofs JsonRoundTrip CodecText CodecCode CodecCodeProofs.
 
 Theorem C04_facts :
   allow_batches V1 = false /\ allow_batches V2 = true /\ allow_batches Loose = true /\
@@ -144,6 +144,60 @@ Example C04_ex :
             payload_to_item V2 p = MItem (IRequest [109]%N args (JStr [])) /\ detect_protocol p = V2.
 Proof. repeat split. eexists. repeat split. Qed.
 
+(* the decoding side of the codec is translated from the Python source on every run (gen/Gen_jsonrpc.v): for each of
+   JSONRPCv1, JSONRPCv2, JSONRPCLoose the functions _message_id, _validate_message, _request_args, response_value;
+   JSONRPCv1._best_effort_error; the base class's _process_request, _process_response and message_to_item (after the
+   text is decoded); JSONRPCAutoDetect.detect_protocol with its nested protocol_for_payload.  Nothing was left
+   untranslated.  model/CodecCode.v gives the statements their meaning over JSON values ('k' in x, x['k'], x.get('k'),
+   isinstance with bool being an int, None = null, try / except ProtocolError) and the runs are the model's functions: *)
+Theorem C04_decoder_code_known :
+  forallb (fun c => vknown 6 c)
+    [v1_message_id_code; v1_validate_code; v1_request_args_code; v1_response_value_code;
+     v2_message_id_code; v2_validate_code; v2_request_args_code; v2_response_value_code;
+     loose_message_id_code; loose_validate_code; loose_request_args_code; loose_response_value_code; best_effort_code;
+     protocol_for_payload_code] = true /\
+  pknown 6 process_request_code && pknown 6 process_response_code && pknown 6 message_to_item_code = true /\
+  dknown 4 detect_protocol_code = true.
+Proof. exact (conj decoder_code_known (conj process_code_known detect_code_known)). Qed.
+
+Theorem C04_message_id_from_source : forall pr l req,
+  run_code (code_of_message_id pr) (JObj l) req = id_result (message_id pr (JObj l) req).
+Proof. exact generated_message_id_dict. Qed.
+
+Theorem C04_validate_from_source : forall pr l,
+  run_code (code_of_validate pr) (JObj l) false = match validate pr (JObj l) with Some c => VRaised c | None => VRetNone end.
+Proof. exact generated_validate. Qed.
+
+Theorem C04_request_args_from_source : forall pr l,
+  run_code (code_of_request_args pr) (JObj l) false = id_result (request_args pr (JObj l)).
+Proof. exact generated_request_args. Qed.
+
+Theorem C04_best_effort_from_source : forall e, best_effort_generated e = Some (best_effort_error e).
+Proof. exact generated_best_effort. Qed.
+
+Theorem C04_response_value_from_source : forall pr l,
+  response_value_generated pr (JObj l) = Some (response_value pr (JObj l)).
+Proof. exact generated_response_value. Qed.
+
+(* ... a request / a response object, and - for the classes that have batches - any JSON value a batch may hold *)
+Theorem C04_process_request_from_source : forall pr l, process_request_generated pr (JObj l) = Some (process_request pr (JObj l)).
+Proof. exact generated_process_request_dict. Qed.
+
+Theorem C04_process_response_from_source : forall pr l, process_response_generated pr (JObj l) = Some (process_response pr (JObj l)).
+Proof. exact generated_process_response_dict. Qed.
+
+Theorem C04_process_member_from_source : forall pr m, pr <> V1 ->
+  process_request_generated pr m = Some (process_request pr m) /\ process_response_generated pr m = Some (process_response pr m).
+Proof. exact (fun pr m H => conj (generated_process_request_any pr m H) (generated_process_response_any pr m H)). Qed.
+
+(* ... message_to_item after the text is decoded, for every class and every JSON value ... *)
+Theorem C04_payload_to_item_from_source : forall pr m, payload_to_item_generated pr m = Some (payload_to_item pr m).
+Proof. exact generated_payload_to_item. Qed.
+
+(* ... and auto-detection *)
+Theorem C04_detect_protocol_from_source : forall m, detect_protocol_generated m = Some (detect_protocol m).
+Proof. exact generated_detect_protocol. Qed.
+
 Print Assumptions C04_facts.
 Print Assumptions C04_roundtrip_request.
 Print Assumptions C04_roundtrip_result.
@@ -162,3 +216,14 @@ Print Assumptions C04_wire_roundtrip.
 Print Assumptions C04_wire_roundtrip_request.
 Print Assumptions C04_wire_roundtrip_result.
 Print Assumptions C04_float_shape.
+Print Assumptions C04_decoder_code_known.
+Print Assumptions C04_message_id_from_source.
+Print Assumptions C04_validate_from_source.
+Print Assumptions C04_request_args_from_source.
+Print Assumptions C04_best_effort_from_source.
+Print Assumptions C04_response_value_from_source.
+Print Assumptions C04_process_request_from_source.
+Print Assumptions C04_process_response_from_source.
+Print Assumptions C04_process_member_from_source.
+Print Assumptions C04_payload_to_item_from_source.
+Print Assumptions C04_detect_protocol_from_source.
